@@ -7,6 +7,8 @@ void envfs_watch_root(const char *fsroot_path);   /* the directory the loader wi
 void envfs_set_root(int fd);
 void envfs_mode(int m);                            /* 0 pass-through, 1 record, 2 hide */
 void envfs_hide(const char **paths, int n);        /* root-relative paths (and their subtrees) answered with ENOENT */
+void envfs_hide_classes(const char **classes, int n);   /* the same for path classes (runs of digits written N): all instances */
+void envfs_path_class(const char *path, char *out, size_t n);
 size_t envfs_recorded(char ***out);
 void envfs_reset_record(void);
 extern uint64_t envfs_calls, envfs_hits;
